@@ -82,6 +82,11 @@ prop("C19",
  "Trusted: encoding/json is canonical on its own output; a user-supplied e-mail-shaped replacement is excluded by the statement.",
  "constant evaluation with the extracted classifier, return-value classification of the scalar step, parser/serialiser agreement rules shared with C03/C04", "DESIGN.md section 3, C19")
 
+prop("C06",
+ "Structural necessary conditions of the order-preserving, line-local map, decided on SSA: mod/ref of package-level state over the per-line call tree (nothing both written and read; tables never mutated, by receiver provenance), no goroutine/channel/sync, no time/randomness/environment/file/network source, no unsorted Go-map iteration (each zero-count detector re-validated against a positive control on every run); the scan loop hands the raw line only to the redactor and to comparisons with \"\", writes at most once per iteration exactly string(MarshalOrdered(RedactMongoLog(line))), every write-free iteration path (enumerated with edge facts) is guarded by the redactor's error, the serialiser's error or line==\"\", and the loop exits only with a non-nil error; every input channel reaches that one loop with the caller's own writer, wrapper success returns come only from it, the created output handle and os.Stdout are used only through the funnel, informational stdout text and a progress bar cannot coexist with stdout-bound records (CFG co-reachability / contradictory flag facts). Level 'other': line splitting (LF/CRLF/final newline) and gzip decoding are the library's.",
+ "Trusted: bufio.ScanLines, compress/gzip, os.Create truncation. Not decided: byte equality across OS channels as observed bytes.",
+ "inter-procedural mod/ref of globals, receiver provenance, bounded path enumeration of the scan loop with edge facts, who-may-use analysis of the output handle, CFG co-reachability", "DESIGN.md section 3, C06")
+
 ALL = ["C%02d" % i for i in range(1, 21)]
 checks = []
 for pid in ALL:
